@@ -214,6 +214,54 @@ def build_loop(b, bb, kind, it_op, stages, c, clo_op, extra):
     return [x for x in (c,) + tuple(s_[1] for s_ in stages) if x is not None]
 
 
+CLOSURE_CALLS = ('std::ops::Fn::call', 'std::ops::FnMut::call_mut', 'std::ops::FnOnce::call_once')
+
+
+def _unique_stmt_def(b, local):
+    found = []
+    for blk in b['blocks']:
+        for st in blk['stmts']:
+            if st['k'] == 'assign' and st['place']['local'] == local and not st['place']['proj']:
+                found.append(st['rv'])
+        t = blk['term']
+        if t['k'] == 'call' and t['dest']['local'] == local and not t['dest']['proj']:
+            found.append(None)
+    return found[0] if len(found) == 1 else None
+
+
+def inline_closure_call(b, bb, pristine):
+    """`let f = |a, b| body; .. f(x, y) ..` — the direct call of a closure defined in the same function is its body with the parameters
+    bound to the arguments and the captures to the captured places.  Returns the closure body grafted, or None."""
+    t = b['blocks'][bb]['term']
+    f = t['func']
+    path = f.get('resolved')
+    if f.get('def') not in CLOSURE_CALLS or path not in pristine or path == b['path'] or len(t['args']) != 2 or t['target'] is None:
+        return None
+    c = pristine[path]
+    env, tup = t['args']
+    if env['k'] not in ('move', 'copy') or env['place']['proj'] or tup['k'] not in ('move', 'copy') or tup['place']['proj']:
+        return None
+    # the closure value: the operand itself, or what it borrows
+    clo_local = env['place']['local']
+    if M._unique_closure_def(b, clo_local) != path:
+        rv = _unique_stmt_def(b, clo_local)
+        if rv is None or rv['k'] != 'ref' or rv['place']['proj'] or M._unique_closure_def(b, rv['place']['local']) != path:
+            return None
+        clo_local = rv['place']['local']
+    # the argument tuple, built right before the call
+    rv = _unique_stmt_def(b, tup['place']['local'])
+    nargs = c['arg_count'] - 1
+    if rv is None or rv['k'] != 'agg' or rv['agg']['k'] != 'tuple' or len(rv['ops']) != nargs:
+        return None
+    span = t['span']
+    g = _graft(b, copy.deepcopy(c), {'k': 'copy', 'place': _pl(clo_local)}, [{'k': 'use', 'op': op} for op in rv['ops']], span)
+    b['blocks'][bb]['term'] = {'k': 'goto', 'target': g['entry'], 'span': span, 'exp': True}
+    b['blocks'][g['exit']] = {'cleanup': False, 'stmts': [{'k': 'assign', 'place': t['dest'], 'rv': {'k': 'use', 'op': {'k': 'move', 'place': _pl(g['ret'])}}, 'span': span, 'exp': True}],
+                              'term': {'k': 'goto', 'target': t['target'], 'span': span, 'exp': True}}
+    M._resolve_ref_aliases(b, g['lbase'])
+    return c
+
+
 def apply_desugaring(doc, rounds=3):
     """Rewrite every recognised consumer call of every body (see module doc). Returns [(body path, grafted closure path)]."""
     closures = {b['path']: b for b in doc['bodies'] if b['kind'] == 'Closure'}
@@ -229,6 +277,12 @@ def apply_desugaring(doc, rounds=3):
                 if t['k'] != 'call' or blk['cleanup'] or t['target'] is None:
                     continue
                 f = t['func']
+                if f.get('def') in CLOSURE_CALLS:
+                    u = inline_closure_call(b, i, pristine)
+                    if u is not None:
+                        done.append((b['path'], u['path']))
+                        changed = True
+                    continue
                 kind = CONSUMERS.get(f.get('def'))
                 if kind is None:
                     continue
